@@ -37,9 +37,10 @@ Class(kern, fx) == IF fx = 0 /\ kern \in FltWhenFloat THEN "flt" ELSE "int"
 \* 2 * gamma_n * sum|term|, gamma_n ~ n * 2^-24: with r = |difference| in units of 2^-24 * sum|term| (measured by the
 \* harness), reassociation alone gives r <= 2n (+ rounding of r itself).
 FltBound(n) == 2 * n + 4
-\* the comb filter run in place feeds its own output back (period T >= 15, total tap gain <= 0.75 in the codec): an error made
-\* on one period is carried into the later ones with a geometric factor <= 1/(1 - 0.75) = 4; a factor 2 of margin (R3)
-CombInPlaceFactor == 8
+\* the comb filter run in place is recursive (period T >= 15, the tap gains sum to less than one): an error made in one
+\* period is carried, not amplified, into the later ones.  There the harness measures the difference against the largest
+\* term magnitude of the call and reports n = 8 operations x (N/T + 1) periods; the same bound applies.
+\* (A first version used a per-sample measure with a calibrated factor 8; hard-clipped input refuted it: r = 534.)
 \* the SSE2 vector search ranks candidates with reciprocal-square-root ESTIMATES: its pulse vector may differ from the
 \* portable one (this is wider than reassociation error and is how the kernel is written; on the pinned tree the vectors
 \* differ in about 5 % of the calls the codec makes).  What is demanded exactly: K pulses, returned energy = sum of
